@@ -184,3 +184,46 @@ sens("R6-dead-test-elsewhere", "R6", "R6/dead-test", (SIMM, "        if tiered_t
 spec("R6s-flip", "R6", (TT, "            if o < s:\n                if o_add_s_ext:", "            if s > o:\n                if o_add_s_ext:"))
 spec("R6s-elif", "R6", (TT, "                return True\n            if o < s:", "                return True\n            elif o < s:"))
 spec("R6s-no-enumerate", "R6", (TT, "        return self.tiers < other.tiers", "        return tuple(self.tiers) < tuple(other.tiers)"), note="expected to be reported unknown? no: tuple() wrapper")
+
+# ----------------------------------------------------------------------------- R20 / R10(connect)
+sens("R20-paren-slip", "R20", "R20/reject", (SCEN, "        if (time_shifted or weak) and dest_attr in dest.model_mock.measurement_inputs:", "        if time_shifted or (weak and dest_attr in dest.model_mock.measurement_inputs):"))
+sens("R20-only-shifted", "R20", "R20/reject", (SCEN, "        if (time_shifted or weak) and dest_attr in dest.model_mock.measurement_inputs:", "        if time_shifted and dest_attr in dest.model_mock.measurement_inputs:"))
+sens("R20-src-check-inputs", "R20", "R20/reject", (SCEN, "        if src_attr not in src.model_mock.output_attrs:", "        if src_attr not in src.model_mock.input_attrs:"))
+sens("R20-dest-check-triggers", "R20", "R20/reject", (SCEN, "        if dest_attr not in dest.model_mock.input_attrs:", "        if dest_attr not in dest.model_mock.event_inputs:"))
+sens("R20-no-dest-check", "R20", "R20/reject", (SCEN, "        if dest_attr not in dest.model_mock.input_attrs:\n            problems.append(\n                \"the destination attribute does not exist\"\n            )\n", ""))
+sens("R20-valueerror", "R20", "R20/exc", (SCEN, "        if problems:\n            raise ScenarioError(", "        if problems:\n            raise ValueError("))
+sens("R20-effect-before-raise", "R20", "R20/R10", (SCEN, "        problems: List[str] = []\n", "        problems: List[str] = []\n        src_sim.output_request.setdefault(src.eid, []).append(src_attr)\n"), (SCEN, "\n        src_sim.output_request.setdefault(src.eid, []).append(src_attr)\n\n        if is_pulled:", "\n        if is_pulled:"))
+sens("R20-successors-not-weak", "R20", "R20/table", (SCEN, "        src_sim.successors[dest_sim] = connect_interval(src_group, dest_group)\n", "        if not weak:\n            src_sim.successors[dest_sim] = connect_interval(src_group, dest_group)\n"))
+sens("R20-triggers-unconditional", "R20", "R20/table", (SCEN, "        if dest.triggered_by(dest_attr):\n            src_sim.triggers", "        if True:\n            src_sim.triggers"))
+sens("R20-triggers-no-shift", "R20", "R20/delay", (SCEN, "            src_sim.triggers.setdefault(src_port, []).append((dest_sim, delay))", "            src_sim.triggers.setdefault(src_port, []).append((dest_sim, connect_interval(src_group, dest_group)))"))
+sens("R20-successors-delay", "R20", "R20/delay", (SCEN, "        src_sim.successors[dest_sim] = connect_interval(src_group, dest_group)\n", "        src_sim.successors[dest_sim] = delay\n"))
+sens("R20-swapped-groups", "R20", "R20/delay", (SCEN, "        delay = connect_interval(src_group, dest_group, int(time_shifted), int(weak))", "        delay = connect_interval(dest_group, src_group, int(time_shifted), int(weak))"))
+sens("R20-drop-weak", "R20", "R20/delay", (SCEN, "        delay = connect_interval(src_group, dest_group, int(time_shifted), int(weak))", "        delay = connect_interval(src_group, dest_group, int(time_shifted))"))
+sens("R20-init-cache-key", "R20", "R20/delay", (SCEN, "                    -int(time_shifted), {}", "                    -1, {}"))
+sens("R20-push-persistent", "R20", "R20/table", (SCEN, "        is_pulled = src_sim.outputs is not None and src.is_persistent(src_attr)", "        is_pulled = src_sim.outputs is not None"))
+sens("R20-connect-drop-weak", "R20", "R20/connect", (SCEN, "                    time_shifted=time_shifted,\n                    weak=weak,\n", "                    time_shifted=time_shifted,\n"))
+sens("R20-async-no-wait", "R20", "R20/async", (SCEN, "        src_sim.successors_to_wait_for[dest_sim] = delay\n", ""))
+sens("R20-async-no-input-delay", "R20", "R20/async", (SCEN, "        dest_sim.input_delays[src_sim] = delay\n", ""))
+spec("R20s-raise-direct", "R20", (SCEN, "        if src_attr not in src.model_mock.output_attrs:\n            problems.append(\n                \"the source attribute does not exist\"\n            )\n", "        if src_attr not in src.model_mock.output_attrs:\n            raise ScenarioError(f\"{src.full_id} has no output attribute {src_attr}\")\n"))
+spec("R20s-demorgan", "R20", (SCEN, "        if (time_shifted or weak) and dest_attr in dest.model_mock.measurement_inputs:", "        if dest_attr in dest.model_mock.measurement_inputs and not (not time_shifted and not weak):"))
+spec("R20s-kwargs", "R20", (SCEN, "        delay = connect_interval(src_group, dest_group, int(time_shifted), int(weak))", "        delay = connect_interval(src_group, dest_group, time_shifted=int(time_shifted), weak=int(weak))"))
+
+# ----------------------------------------------------------------------------- R19
+sens("R19-zero-eq-interval", "R19", "R19/zero", (SCEN, "            if all(t == 0 for t in delay.tiers):", "            if delay == TieredInterval(*([0] * len(delay))):"))
+sens("R19-zero-any", "R19", "R19/zero", (SCEN, "            if all(t == 0 for t in delay.tiers):", "            if any(t == 0 for t in delay.tiers):"))
+sens("R19-zero-first-tier", "R19", "R19/zero", (SCEN, "            if all(t == 0 for t in delay.tiers):", "            if all(t == 0 for t in delay.tiers[:1]):"))
+sens("R19-no-gate", "R19", "R19/gate", (SCEN, "        self.ensure_no_dataflow_cycles()\n\n        self.cache_triggering_ancestors()", "        self.cache_triggering_ancestors()"))
+sens("R19-gate-in-try", "R19", "R19/gate", (SCEN, "        self.ensure_no_dataflow_cycles()\n\n        self.cache_triggering_ancestors()", "        try:\n            self.ensure_no_dataflow_cycles()\n        except ScenarioError as e:\n            logger.warning(str(e))\n\n        self.cache_triggering_ancestors()"))
+sens("R19-swapped-sum", "R19", "R19/closure", (SCEN, "                    src_to_dest = src_to_mid + mid_to_dest\n                    src_to_dest = update_min(\n                        sim_descs", "                    src_to_dest = mid_to_dest + src_to_mid\n                    src_to_dest = update_min(\n                        sim_descs"))
+sens("R19-no-requeue", "R19", "R19/closure", (SCEN, "                        dirty.add(src_sim)\n", "                        pass\n"))
+sens("R19-requeue-mid", "R19", "R19/closure", (SCEN, "                        dirty.add(src_sim)\n", "                        dirty.add(mid_sim)\n"))
+sens("R19-anc-swapped-sum", "R19", "R19/anc-closure", (SCEN, "                        src_to_dest = src_to_mid + mid_to_dest\n                        src_to_dest = update_min(dest_sim.triggering_ancestors", "                        src_to_dest = mid_to_dest + src_to_mid\n                        src_to_dest = update_min(dest_sim.triggering_ancestors"))
+sens("R19-weak-tier", "R19", "R19/interval", (SCEN, "        list_tiers[cutoff - 1] = weak", "        list_tiers[-1] = weak"))
+sens("R19-weak-tier1", "R19", "R19/interval", (SCEN, "        list_tiers[cutoff - 1] = weak", "        list_tiers[1] = weak"))
+sens("R19-cutoff-descent", "R19", "R19/interval", (SCEN, "    ascent, _, common_group = group_path(src_group, dest_group)", "    _, ascent, common_group = group_path(src_group, dest_group)"))
+sens("R19-weak-root-ok", "R19", "R19/interval", (SCEN, "    if weak and not common_group.parent:\n        raise ScenarioError(", "    if weak and not src_group.parent:\n        raise ScenarioError("))
+sens("R19-prelength-dest", "R19", "R19/interval", (SCEN, "    pre_length = src_group.depth", "    pre_length = dest_group.depth"))
+sens("R19-extra-writer", "R19", "R19/writers", (SCEN, "        sim.next_steps = [TieredTime(time) + sim.from_world_time]", "        sim.next_steps = [TieredTime(time) + sim.from_world_time]\n        sim.input_delays.clear()"))
+sens("R19-path-missing", "R19", "R19/zero", (SCEN, '                    f"Your scenario contains cycles, for example: {path}."', '                    "Your scenario contains cycles."'))
+spec("R19s-rename", "R19", (SCEN, "            if all(t == 0 for t in delay.tiers):", "            if all(0 == tier for tier in delay.tiers):"))
+spec("R19s-set-comp", "R19", (SCEN, "        dirty: Set[SimRunner] = set(self.sims.values())", "        dirty: Set[SimRunner] = {s for s in self.sims.values()}"))
